@@ -18,9 +18,9 @@ def only_ledger(line):
 
 
 def run(ctx):
-    cc.run(ctx, FILES, ['ledger', 'ledger', 'restructure'], n_quick=1500, n_thorough=60000, keep=only_ledger,
-           variants_quick=('multi_functor', 'single_stdfunction'), what='callback objects held by CallbackList',
-           leaves=('callbacklist', 'exn', 'ctors', 'queue'))
+    proof = cc.run(ctx, FILES, ['ledger', 'ledger', 'restructure'], n_quick=1500, n_thorough=60000, keep=only_ledger,
+                   variants_quick=('multi_functor', 'single_stdfunction'), what='callback objects held by CallbackList',
+                   leaves=('callbacklist', 'exn', 'ctors', 'queue'), report_unfound=False)
     bins = qc.build_variants(ctx, ['ref_multi'])
     cases = qc.corpus_cases() + [q_domain.Gen(ctx.rng.fork(), 'ledger').gen() for _ in range(ctx.budget(1200, 40000))]
     st, model, texts, usable = q_domain.correspond(ctx, bins, cases, keep=only_ledger, what='event payloads held by EventQueue')
@@ -32,9 +32,9 @@ def run(ctx):
     # (C09's fault-plan machinery: harness/exn.cpp + extracted fault profiles; `live` lines are the ledger, LSan at exit)
     proof_ok = not ctx.coverage.get('proof_errors')
     ebins = c09.build_variants(ctx, ['gxx17_map'])
-    kinds = ['clcopy', 'classign', 'cladd', 'hcopy', 'hassign', 'dcopy', 'enqueue', 'oenqueue']
+    kinds = ['clcopy', 'classign', 'dcopy', 'cladd', 'clcopy', 'classign', 'hcopy', 'hassign', 'dcopy', 'enqueue', 'oenqueue', 'clcopy']
     ecases = []
-    for j in range(ctx.budget(16, 400)):
+    for j in range(ctx.budget(60, 600)):
         _, fam = exn_domain.plan_family(ctx.rng.fork(), kind=kinds[j % len(kinds)])
         ecases += fam
     est, _, _, _, _ = exn_domain.correspond(ctx, 'gxx17_map', ebins['gxx17_map'], ecases, oracle='code' if proof_ok else 'spec')
@@ -42,6 +42,9 @@ def run(ctx):
     ctx.coverage['fault_plan_disagreements'] = est['disagreements']
     ctx.coverage['fault_points_fired_in_real_runs'] = est['fault_points_exercised']
     ctx.coverage['evaluations'] += est['compared']
+    if not proof['ok'] and not ctx.violations:
+        ctx.violation('# no failing input found by %d comparisons\n# broken obligation(s):\n# %s\n' % (ctx.coverage['evaluations'], '\n# '.join(proof['errors'])),
+                      'proof obligation no longer checks: ' + '; '.join(proof['errors'])[:400], no_input=True)
     ctx.coverage['rule'] += '; plus fault plans (tools/exn_domain.py) for %s: the k-th allocation / user copy fails, k = 1..14, the live-object ledger and the containers must be as before' % kinds
 
 
